@@ -1,0 +1,16 @@
+//go:build verif
+
+package gortsplib
+
+import (
+	"io"
+	"net"
+)
+
+// This file exists only when the build tag "verif" is set; it changes no behaviour.
+
+// VerifNewClientTunnelHTTPWriter returns the write half of the client's RTSP-over-HTTP tunnel
+// (clientTunnelHTTP.Write) on top of the given connection.
+func VerifNewClientTunnelHTTPWriter(writeChan net.Conn) io.Writer {
+	return &clientTunnelHTTP{writeChan: writeChan}
+}
